@@ -31,3 +31,5 @@ def run(ctx):
             c07.rule_range(ctx, p, cfg, "R6b")
             c07.rule_final_step(ctx, p, cfg, "R6c")
             c07.rule_move_file(ctx, p, cfg, "R6d")   # an archive is replaced whole: rename, else copy (truncating) then remove
+            c07.rule_archive_writes_surface(ctx, p, cfg, "R6e")   # .. and written whole: no bare write, no buffered tail lost in a drop
+            c07.rule_roll_moves_file(ctx, p, cfg, "R6f")   # a roll reported as done has taken the file away
